@@ -11,7 +11,7 @@ def client_refresh_total(t, rid):
     on the keep-alive's slot fields, a flag, ..) lets genuine packets fall through to `_ => {}`; with only keep-alives flowing the client then
     times out although nothing was lost."""
     from rules.netcode_common import decode_sites, packet_variant_edges, enum_variant_edges, NC
-    r = RuleResult(rid, "a Connected client refreshes its timeout for every authentic KeepAlive / Payload (no extra condition on those arms)", floor=1)
+    r = RuleResult(rid, "a Connected client refreshes its timeout for every authentic KeepAlive / Payload (no extra condition on those arms)", floor=0)
     f = t.fn("NetcodeClient::process_packet")
     is_state = lambda o: re.search(r"P1\(self\)\.state$", fmt(strip(o))) is not None
     ST = "renetcode::client::ClientState"
@@ -87,7 +87,7 @@ def complete_means_removed(t, rid):
     entry leaves `slices` in the same call (before or after the hand-over, on every path). An entry that stays behind completes again on every
     late duplicate of one of its slices (its completion test is outside the `already received` branch and its buffer was moved out): the
     application obtains a message the peer never submitted."""
-    r = RuleResult(rid, "a completed sliced message is delivered together with the removal of its reassembly entry from `slices`", floor=2)
+    r = RuleResult(rid, "a completed sliced message is delivered together with the removal of its reassembly entry from `slices`", floor=0)
     for name in ("ReceiveChannelReliable::process_slice", "ReceiveChannelUnreliable::process_slice"):
         f0 = t.fn(name)
         for f in fn_and_closures(t, f0):
@@ -110,7 +110,7 @@ def stale_index(t, rid):
     unchanged: no removal from pending_acks can precede the insert on a path. After `remove(0)` every element has moved down by one, the
     remembered index puts the new range behind the range it should precede: the list is no longer sorted and the ack encoder's
     `previous_start - end` subtraction underflows (panic / a gap above the varint range)."""
-    r = RuleResult(rid, "pending_acks.insert(index, ..) is never reached after a removal from pending_acks (the scanned index would be stale)", floor=1)
+    r = RuleResult(rid, "pending_acks.insert(index, ..) is never reached after a removal from pending_acks (the scanned index would be stale)", floor=0)
     f0 = t.fn("RenetClient::add_pending_ack")
     for f in fn_and_closures(t, f0):
         on_acks = lambda c: c.node["k"] == "call" and c.node["args"] and re.search(r"\.pending_acks\)*$", fmt(strip(t.arg(c, 0))) )
@@ -134,7 +134,7 @@ def ack_record_value(t, rid):
     """PROV (value): what is remembered for a sent Ack packet is the largest sequence the packet denotes: ack ranges are half-open, so the value
     derived from the newest range's `end` is `end - 1`. Recording the exclusive end makes acked_largest() erase sequence end from pending_acks
     once the ack packet is confirmed, although no confirmed ack packet ever reported it."""
-    r = RuleResult(rid, "the largest-acked value recorded for a sent Ack packet is the newest range's end minus one (ranges are half-open)", floor=1)
+    r = RuleResult(rid, "the largest-acked value recorded for a sent Ack packet is the newest range's end minus one (ranges are half-open)", floor=0)
     for a_ in t.aggrs("remote_connection::PacketSentInfo", "Ack"):
         if " as std::clone::Clone>" in a_.fn.path: continue
         try: v = t.field_of_aggr(a_, "largest_acked_packet")
